@@ -322,6 +322,9 @@ def store_subscript(I, o, k, v):
     if isinstance(o, VMap):
         kk = unwrap(k, o.kt)
         map_store(I, o, kk, v)
+        if isinstance(v, VDictRec) and isinstance(o.vt, TMutRec):
+            v.origin = (o, kk)
+            v.adopt(o.vt)
         return
     if isinstance(o, VSeq):
         idx = norm_index(I, o, k)
@@ -332,6 +335,21 @@ def store_subscript(I, o, k, v):
     if isinstance(o, VDictRec):
         c = const_of(k) if isinstance(k, VStr) else _NOCONST
         if isinstance(c, str):
+            if o.mt is not None:
+                # by-value record: fixed keys, typed fields, mutation written back to the owning container
+                if c not in o.mt.fields:
+                    raise Unsupported("new key %r stored into a %s record" % (c, o.mt.nm))
+                ft = o.mt.fields[c]
+                if isinstance(v, VDictRec) and isinstance(ft, TMutRec):
+                    v.origin = (o, c)
+                    v.adopt(ft)
+                elif isinstance(v, (VSeq, VMap, VSet)):
+                    v.origin = (o, c)
+                elif not isinstance(v, VDictRec):
+                    v = ft.wrap(unwrap(v, ft))
+                o.fields[c] = v
+                o.writeback()
+                return
             o.fields[c] = v
             return
         raise Unsupported("symbolic key store into literal dict")
@@ -1803,6 +1821,8 @@ def map_get(I, m, k, default):
         return default
     # try a value level ite first; fork when the default has a different shape
     try:
+        if isinstance(m.vt, TMutRec) and not I.spec:
+            raise TypeError("record alias: fork")
         if isinstance(default, VNone):
             t = m.vt if isinstance(m.vt, TOpt) else TOpt(m.vt)
             r = t.wrap(z3.If(present, unwrap(val, t), t.none()))
@@ -2155,6 +2175,18 @@ def comprehension(I, n, env):
     if base.arr is not None and z3.is_const(base.arr) and base.arr.decl().kind() == z3.Z3_OP_UNINTERPRETED:
         # (a Store/Lambda/ite-valued array is not a legal trigger: "'if' cannot be used in patterns")
         hit_pats.append(z3.Select(base.arr, i))
+    elif base.arr is not None:
+        # source is itself a mapped list (lambda array): trigger on the reads of the underlying plain arrays
+        seen, stack = set(), [z3.simplify(z3.Select(base.arr, i))]
+        while stack:
+            x = stack.pop()
+            if x.get_id() in seen or not z3.is_app(x):
+                continue
+            seen.add(x.get_id())
+            if z3.is_select(x) and x.arg(1).eq(i) and z3.is_const(x.arg(0)) and \
+                    x.arg(0).decl().kind() == z3.Z3_OP_UNINTERPRETED:
+                hit_pats.append(x)
+            stack.extend(x.children())
     p.assume(z3.ForAll([i], z3.Implies(z3.And(0 <= i, i < base.n, cond),
                                       z3.And(0 <= rank(i), rank(i) < res.n, sel(rank(i)) == i,
                                              z3.Select(res.arr, rank(i)) == elt_e)),
@@ -2508,9 +2540,9 @@ def _for_map_inv(I, s, env, spec, m, kind):
             if kind == "keys":
                 x = kt.wrap(kk)
             elif kind == "values":
-                x = m.vt.wrap(z3.Select(val0, kk))
+                x = m.get(kk)       # the value as it is now (origin kept: mutations are written back)
             else:
-                x = VTuple([kt.wrap(kk), m.vt.wrap(z3.Select(val0, kk))])
+                x = VTuple([kt.wrap(kk), m.get(kk)])
             I.assign(s.target, x, env)
             try:
                 I.exec_block(s.body, env)
